@@ -33,7 +33,7 @@ def tasks(ctx):
 
 def worker(task):
     ctx = get_ctx()
-    r = provrun.run(task, RED, inplace=False)
+    r = provrun.run(task, RED, inplace=False, alias=True)
     viols, classwrites, userwrites = [], set(), set()
     nontriv = set()
     for p in r["paths"]:
